@@ -74,8 +74,12 @@ def run_m(tier, seed, ev):
                 lambda ex: C.ob_decoder_total(ex, "deserialize_wal_op_raw", None, "deserialize_wal_op_raw", lb)),
                ("snapshot decoder total + allocation-bounded, input length symbolic/unbounded", "decoder_counts",
                 lambda ex: C.ob_decoder_total(ex, "deserialize_index_state", None, "deserialize_index_state", lb))]
-        rc = mprop.run_m("C16", tier, seed, ev, ex, obs, [("src/serialization.rs", "c16_serialization.rs", "verif_c16")],
-                         "replay_c16_decoder_counts")
+        import obl_path as P
+        obs.append(("blob-path decoder (BlobHash::from_relative_path) total on arbitrary paths", "path_total", lambda ex: P.ob_path_total(ex)))
+        rc = mprop.run_m("C16", tier, seed, ev, ex, obs,
+                         lambda ob: [("src/types.rs", "c16_types.rs", "verif_c16t")] if (ob.cex or {}).get("violation") == "path-panic"
+                         else [("src/serialization.rs", "c16_serialization.rs", "verif_c16")],
+                         lambda ob: "replay_c16_path_total" if (ob.cex or {}).get("violation") == "path-panic" else "replay_c16_decoder_counts")
         ev.extra["mir_dump_s"] = round(mir_s, 1)
         ev.extra["engine_M_models"] = sorted(ex.models.used)
         return rc
@@ -84,6 +88,7 @@ def run_m(tier, seed, ev):
 def run(tier, seed, ev):
     rc_m = run_m(tier, seed, ev)
     rc_k = run_k(tier, seed, ev)
+    ev.bounds["Engine M blob-path decoder"] = "abstract path: 0..4+ components of arbitrary bytes and symbolic lengths, valid UTF-8 or not, character boundaries unknown; str::split_at modelled with its panic condition; hex decoding answers Ok or Err arbitrarily"
     ev.bounds["Engine M decoders"] = "input slice of symbolic length up to isize::MAX; entry/key loops unrolled 3 (quick) / 4 (thorough) times; integers decoded from the input arbitrary"
     ev.assumptions.append("Engine M: allocation bound = requested bytes <= 8 x input length + 96 (Vec growth slack); split_at_checked/split_first/copy_from_slice/to_vec/from_le_bytes are contract models, the same helpers are decided byte-wise by Kani")
     if 1 in (rc_m, rc_k):
